@@ -24,7 +24,7 @@ RULE = ('cases = conversation (echo, multi-fragment store, pipelined, release by
         'every offset with one seeded ending; thorough: all three) + kill requested at every '
         'quiescent point + provider stalls; non-trivial = cut strictly inside the conversation; '
         'distinct = distinct (conversation, offset, ending, kill point)'
-        '; resets right behind complete PDUs; association-level endings on real AEs under silent peers, also while other associations come and go (ARTIM, not the application time-out, must end the waiting); kill_busy: kill() right after a step has been handed to the provider')
+        '; resets right behind complete PDUs; association-level endings on real AEs under silent peers, also while other associations come and go (ARTIM, not the application time-out, must end the waiting); kill_busy: kill() right after a step has been handed to the provider; stop() polled from another thread during kill()')
 ASSUMPTIONS = ['silence only has to end the provider where ARTIM is armed (Sta2, Sta13)',
                'bound = ARTIM (10 s) + 1 s of virtual time after the last environment action',
                'kill() = DULServiceProvider.kill(); Association.kill is covered in the P2 part']
@@ -87,7 +87,11 @@ def cases(tier, seed):
         for k in range(nsteps):
             for j in range(2):
                 yield dict(convo=name, cut=None, ending=None, kill=k, kill_busy=True,
-                           seed=seed * 7 + j)
+                           stop_poller=bool(j), seed=seed * 7 + j)
+        # ... and while another thread keeps asking the provider to stop if it is idle (stop()
+        # is what Association.kill polls before it resorts to kill())
+        for k in range(0, nsteps + 1, 2):
+            yield dict(convo=name, cut=None, ending=None, kill=k, stop_poller=True, seed=seed)
     # a long pipelined turn to a user that does not consume: cuts only behind every 8th PDU,
     # plus a stop request after every step
     name = 'A18_flood_deaf_user_aborts'
@@ -160,6 +164,11 @@ def run_case(case):
         associated = False
         killed_at = None
         busy_killer = None
+
+        def stop_poller():
+            for _ in range(80):
+                rig.provider.stop()
+                rig.sim.sleep(0.004)
         steps = c['steps']
         stall_at = None
         if case.get('stall'):
@@ -177,6 +186,8 @@ def run_case(case):
                     for _ in range(brnd.choice([0, 0, 1, 2, 3, 5, 8])):
                         if not rig.sim.step(until=rig.sim.now + 0.2):
                             break
+                    if case.get('stop_poller'):
+                        rig.sim.spawn(stop_poller, name='poller', role='user')
                     busy_killer = rig.sim.spawn(rig.provider.kill, name='killer', role='user')
                 break
             if stall_at == i:
@@ -305,6 +316,8 @@ def run_case(case):
                       'indications %r' % [describe_indication(x) for x in user.seen])
         # a request to stop the provider always completes
         if not rig.loop_dead() or busy_killer is not None:
+            if case.get('stop_poller') and busy_killer is None:
+                rig.sim.spawn(stop_poller, name='poller', role='user')
             killer = busy_killer or rig.sim.spawn(rig.provider.kill, name='killer', role='user')
             rig.sim.run_for(2.0, pred=lambda: killer.done)
             if not killer.done:
